@@ -14,16 +14,17 @@ structure ChildWF (w : Int) (c : Child) : Prop where
   cf_eq : c.cf = specCount w c.hist
   last_eq : c.last = c.hist.head?.getD 0
   pos : ∀ t ∈ c.hist, 0 < t
+  nofail : c.failNext = 0
 
 theorem wf_fresh (w : Int) : ChildWF w Child.fresh := by
   constructor <;> simp [Child.fresh, specCount]
 
 theorem wf_suspend {w c} (h : ChildWF w c) (hr : c.running = true) : ChildWF w (suspend c) := by
-  obtain ⟨h1, h2, h3, h4⟩ := h
+  obtain ⟨h1, h2, h3, h4, h5⟩ := h
   constructor <;> simp_all [suspend]
 
 theorem wf_unsuspend {w c} (h : ChildWF w c) : ChildWF w { c with susp := false } := by
-  obtain ⟨h1, h2, h3, h4⟩ := h
+  obtain ⟨h1, h2, h3, h4, h5⟩ := h
   constructor <;> simp_all
 
 theorem wf_doReinstate {w c} (h : ChildWF w c) : ChildWF w (doReinstate c).1 := by
@@ -33,14 +34,14 @@ theorem wf_doReinstate {w c} (h : ChildWF w c) : ChildWF w (doReinstate c).1 := 
   · exact wf_unsuspend h
 
 theorem wf_shutdown {w c} (h : ChildWF w c) : ChildWF w (shutdown c).1 := by
-  obtain ⟨h1, h2, h3, h4⟩ := h
+  obtain ⟨h1, h2, h3, h4, h5⟩ := h
   unfold shutdown
   split
-  · exact ⟨h1, h2, h3, h4⟩
+  · exact ⟨h1, h2, h3, h4, h5⟩
   · constructor <;> simp_all
 
 theorem wf_stop {w c} (h : ChildWF w c) : ChildWF w { (shutdown c).1 with reg := false } := by
-  obtain ⟨h1, h2, h3, h4⟩ := wf_shutdown h
+  obtain ⟨h1, h2, h3, h4, h5⟩ := wf_shutdown h
   constructor <;> simp_all
 
 theorem restartOne_fst (c : Child) :
@@ -61,7 +62,7 @@ theorem wf_restartOne {w c} (h : ChildWF w c) : ChildWF w (restartOne c).1 := by
     split
     · exact wf_shutdown h
     · exact h
-  obtain ⟨h1, h2, h3, h4⟩ := hc1
+  obtain ⟨h1, h2, h3, h4, h5⟩ := hc1
   constructor <;> simp_all
 
 /-- `recordFault` computes the spec's consecutive-fault count of the extended history -/
@@ -83,7 +84,7 @@ theorem recordFault_cf {w c} (now : Int) (h : ChildWF w c) :
 
 theorem wf_recordFault {w c} (now : Int) (hn : 0 < now) (h : ChildWF w c) : ChildWF w (recordFault w now c) := by
   have hcf := recordFault_cf now h
-  obtain ⟨h1, h2, h3, h4⟩ := h
+  obtain ⟨h1, h2, h3, h4, h5⟩ := h
   constructor
   · simpa [recordFault] using h1
   · rw [hcf]; simp [recordFault]
@@ -93,6 +94,7 @@ theorem wf_recordFault {w c} (now : Int) (hn : 0 < now) (h : ChildWF w c) : Chil
     rcases ht with rfl | ht
     · exact hn
     · exact h4 t ht
+  · exact h5
 
 theorem specCount_replicate_one (w : Int) (n : Nat) : specCount w (List.replicate n 1) = n := by
   induction n with
@@ -114,7 +116,7 @@ theorem specCount_pos (w : Int) (t : Int) (l : List Int) : 0 < specCount w (t ::
 /-- the ghost effect of the harness' `age` op keeps the invariant -/
 theorem wf_age {w c} (h : ChildWF w c) (hl : c.last ≠ 0) :
     ChildWF w { c with last := 1, hist := List.replicate c.cf 1 } := by
-  obtain ⟨h1, h2, h3, h4⟩ := h
+  obtain ⟨h1, h2, h3, h4, h5⟩ := h
   have hne : c.hist ≠ [] := by
     intro he; rw [he] at h3; simp at h3; exact hl h3
   obtain ⟨t, r, htr⟩ := List.exists_cons_of_ne_nil hne
@@ -127,6 +129,7 @@ theorem wf_age {w c} (h : ChildWF w c) (hl : c.last ≠ 0) :
   · intro t ht
     simp only [List.mem_replicate] at ht
     omega
+  · exact h5
 
 theorem last_zero_iff {w c} (h : ChildWF w c) : c.last = 0 ↔ c.hist = [] := by
   obtain ⟨_, _, h3, h4⟩ := h
@@ -142,7 +145,7 @@ theorem last_zero_iff {w c} (h : ChildWF w c) : c.last = 0 ↔ c.hist = [] := by
   · intro he; rw [he] at h3; simpa using h3
 
 theorem wf_handled {w c} (h : ChildWF w c) (n : Nat) : ChildWF w { c with handled := n } := by
-  obtain ⟨h1, h2, h3, h4⟩ := h
+  obtain ⟨h1, h2, h3, h4, h5⟩ := h
   constructor <;> simp_all
 
 end GoaktVerif.C07
